@@ -5,13 +5,14 @@ import (
 	"fmt"
 	"go/ast"
 	"go/token"
-	"go/types"
 	"os"
 	"os/exec"
 	"path/filepath"
 	"regexp"
 	"sort"
 	"strings"
+
+	"golang.org/x/tools/go/ssa"
 )
 
 func init() { register("C03", checkC03) }
@@ -309,21 +310,9 @@ func checkC03(w *World, r *Report) {
 		r.Check(len(allCallsTo(p, fd.Body, update)) == 1 && len(callsIn(p, fd.Body)) <= 2, "R03.5", "ProgBuilder.CodeFn", fd.Pos(),
 			"one Update call", "CodeFn must append exactly one instruction (one ProgStack.Update call and one constructor)")
 		ufd, up := w.FuncDecl(update)
-		pop, push := w.Method("xpath", "ProgStack", "Pop"), w.Method("xpath", "ProgStack", "Push")
-		okU := len(callsTo(up, ufd.Body, pop)) == 1 && len(callsTo(up, ufd.Body, push)) == 1
-		// the pushed value is append(popped, i)
-		if okU {
-			pc := callsTo(up, ufd.Body, push)[0]
-			okU = false
-			if ap, ok := ast.Unparen(pc.Args[0]).(*ast.CallExpr); ok {
-				if id, ok := ap.Fun.(*ast.Ident); ok && id.Name == "append" && len(ap.Args) == 2 && ap.Ellipsis == token.NoPos {
-					if _, isB := up.TypesInfo.Uses[id].(*types.Builtin); isB && objOfIdent(up, ap.Args[1]) == paramObj(up, ufd, 0) {
-						okU = true
-					}
-				}
-			}
-		}
-		r.Check(okU, "R03.5", "ProgStack.Update", ufd.Pos(), "pop; push(append(prog, inst))", "Update is not pop-append-push of exactly the given instruction at the end")
+		_ = up
+		okU := c03UpdateAppendsOne(w, w.SSAFunc(update))
+		r.Check(okU, "R03.5", "ProgStack.Update", ufd.Pos(), "the top program becomes append(top, inst): pop; push(append(prog, inst)), or the top slot rewritten in place", "Update is not pop-append-push of exactly the given instruction at the end")
 	})
 
 	r.Rule("R03.6", "'(' is in, and ')' is not in, the set of tokens after which '*' / an NCName cannot be an operator, and so is every operator token of the precedence chain: adding the parentheses precedence implies never flips the disambiguation of a neighbour", 18)
@@ -448,4 +437,88 @@ func resolveTerm(byLHS map[string][]*Prod, g *Grammar, n string) string {
 		return ps[0].RHS[0].Name
 	}
 	return ""
+}
+
+// c03UpdateAppendsOne: Update(i) makes the top program append(top, i) and
+// touches nothing else — written as Pop; Push(append(popped, i)) or as
+// stack[len(stack)-1] = append(stack[len(stack)-1], i).
+func c03UpdateAppendsOne(w *World, f *ssa.Function) bool {
+	if f == nil || len(f.Params) != 2 || len(ssaLoops(f)) > 0 {
+		return false
+	}
+	pop, push := w.SSAFunc(w.Method("xpath", "ProgStack", "Pop")), w.SSAFunc(w.Method("xpath", "ProgStack", "Push"))
+	var appends, pops, pushes []*ssa.Call
+	var stores []*ssa.Store
+	for _, b := range f.Blocks {
+		for _, in := range b.Instrs {
+			switch x := in.(type) {
+			case *ssa.Call:
+				if bi, ok := x.Call.Value.(*ssa.Builtin); ok && bi.Name() == "append" {
+					appends = append(appends, x)
+				}
+				switch x.Call.StaticCallee() {
+				case pop:
+					pops = append(pops, x)
+				case push:
+					pushes = append(pushes, x)
+				}
+			case *ssa.Store:
+				if _, isIA := x.Addr.(*ssa.IndexAddr); isIA {
+					if al, ok := x.Addr.(*ssa.IndexAddr).X.(*ssa.Alloc); ok && strings.Contains(al.Comment, "varargs") {
+						continue // filling an argument list
+					}
+					stores = append(stores, x)
+				} else if _, isAl := x.Addr.(*ssa.Alloc); !isAl {
+					stores = append(stores, x)
+				}
+			}
+		}
+	}
+	if len(appends) != 1 {
+		return false
+	}
+	ap := appends[0]
+	els := sliceLiteralElems(ap.Call.Args[1])
+	if len(els) != 1 || els[0] != ssa.Value(f.Params[1]) {
+		return false
+	}
+	base := ap.Call.Args[0]
+	// pop; push(append(popped, i))
+	if len(pops) == 1 && len(pushes) == 1 && len(stores) == 0 {
+		return base == ssa.Value(pops[0]) && len(pushes[0].Call.Args) == 2 && pushes[0].Call.Args[1] == ssa.Value(ap) &&
+			pops[0].Call.Args[0] == ssa.Value(f.Params[0]) && pushes[0].Call.Args[0] == ssa.Value(f.Params[0])
+	}
+	// stack[len-1] = append(stack[len-1], i)
+	if len(pops) == 0 && len(pushes) == 0 && len(stores) == 1 && stores[0].Val == ssa.Value(ap) {
+		topSlot := func(v ssa.Value) (ssa.Value, bool) { // &S[len(S)-1] with S = *ps
+			ia, ok := v.(*ssa.IndexAddr)
+			if !ok {
+				return nil, false
+			}
+			bo, ok := ia.Index.(*ssa.BinOp)
+			if !ok || bo.Op != token.SUB {
+				return nil, false
+			}
+			if k, isK := intConstOf(bo.Y); !isK || k != 1 {
+				return nil, false
+			}
+			arg, isLen := isLenCall(bo.X)
+			if !isLen || arg != ia.X {
+				return nil, false
+			}
+			ld, ok := ia.X.(*ssa.UnOp)
+			if !ok || ld.Op != token.MUL || ld.X != ssa.Value(f.Params[0]) {
+				return nil, false
+			}
+			return ia.X, true
+		}
+		dst, ok1 := topSlot(stores[0].Addr)
+		ld, isLd := base.(*ssa.UnOp)
+		if !ok1 || !isLd || ld.Op != token.MUL {
+			return false
+		}
+		src, ok2 := topSlot(ld.X)
+		return ok2 && src == dst
+	}
+	return false
 }
